@@ -80,7 +80,7 @@ def cases(rng, tier):
         i += 1
         out.append({"chain": ch, "header": rng.choice(["encoded", "raw", "encrypted_ctor", "encrypted_setter"]), "password": rng.choice(G.PASSWORDS),
                     "nmembers": rng.choice([1, 2, 3]), "sizes": [rng.choice([24, 31, 32, 33, 48, 100, 1000, 5000, 40000]) for _ in range(3)], "seed": rng.getrandbits(32),
-                    "append": rng.random() < 0.3, "append_header": rng.choice(["same", "default"])})
+                    "append": rng.random() < 0.3, "append_header": rng.choice(["same", "default", "upgrade"])})
     return out
 
 
@@ -105,6 +105,10 @@ def run_case(case):
     import py7zr
     from Cryptodome.Cipher import AES as REAL_AES
 
+    base_header = case["header"]
+    if case["append"] and case.get("append_header") == "upgrade":
+        # the base archive has a readable header; the append session asks for header encryption: the result must have it
+        base_header, case = "encoded", dict(case, header="encrypted_ctor")
     r = random.Random(case["seed"])
     members = [("secret-dir/member-%d-%s.dat" % (i, _tokens(r, 8).decode()), _tokens(r, case["sizes"][i])) for i in range(case["nmembers"])]
     pw = case["password"]
@@ -118,12 +122,12 @@ def run_case(case):
             del _mon["aes"][:]
             del _mon["rand"][:]
             try:
-                path, obj, data = K.write_session(d, members, case["chain"], pw, case["header"], "bytesio", "writestr")
+                path, obj, data = K.write_session(d, members, case["chain"], pw, base_header, "bytesio", "writestr")
                 if case["append"]:
                     extra = [("secret-dir/appended-%s.dat" % _tokens(r, 6).decode(), _tokens(random.Random(case["seed"] + 1), 64))]
                     # the append session either asks for the same header mode again or says nothing about it (default flags):
                     # names that needed the password before must need it afterwards
-                    ah = case["header"] if case.get("append_header", "same") == "same" else "encoded"
+                    ah = case["header"] if case.get("append_header", "same") in ("same", "upgrade") else "encoded"
                     path, obj, data = K.write_session(d, extra, case["chain"], pw, ah, "bytesio", "writestr", mode="a", obj=obj)
                     allm = members + extra
                 else:
@@ -271,7 +275,7 @@ def run_case(case):
                                  "what": "wrong password (%s) : read completed; %d members delivered with different bytes (chain %s, header %s)" % (label, len(differing), G.chain_label(case["chain"]), case["header"])})
                 elif differing:
                     obs["diag_garbage_before_error"] += 1
-    cell = "%s|%s|%s|n%d" % (G.chain_label(case["chain"]), case["header"], "empty-pw" if pw == "" else ("nonbmp" if any(ord(c) > 0xFFFF for c in pw) else "pw"), case["nmembers"])
+    cell = "%s|%s|%s|n%d|%s" % (G.chain_label(case["chain"]), case["header"], "empty-pw" if pw == "" else ("nonbmp" if any(ord(c) > 0xFFFF for c in pw) else "pw"), case["nmembers"], ("append-" + case.get("append_header", "same")) if case["append"] else "-")
     sample = {"chain": G.chain_label(case["chain"]), "header": case["header"], "password_len": len(pw), "members": [(n, len(b)) for n, b in members], "archive_bytes": len(arcs[0])}
     if viol:
         seen = {}
